@@ -414,48 +414,80 @@ def finish(ctx, level_text=""):
 
 # ----------------------------------------------------------------------------- stateless layers
 
-def _run_one(binary, layer, lines, timeout):
+def _lines(raw):
+    """split on LF only (str.splitlines also splits on U+2028, U+0085, ... which occur inside JSON strings)"""
+    out = raw.decode("utf8", "replace").split("\n")
+    if out and out[-1] == "":
+        out.pop()
+    return [l[:-1] if l.endswith("\r") else l for l in out]
+
+
+def _limits():
+    import resource
     try:
-        p = subprocess.run([binary, layer], input=("\n".join(lines) + "\n").encode(), capture_output=True, timeout=timeout)
-        return p.returncode, p.stdout.decode("utf8", "replace").splitlines(), p.stderr.decode("utf8", "replace")
-    except subprocess.TimeoutExpired as ex:
-        out = (ex.stdout or b"").decode("utf8", "replace").splitlines()
-        return 124, out, "timeout"
+        resource.setrlimit(resource.RLIMIT_AS, (6 << 30, 6 << 30))
+    except Exception:
+        pass
+    os.setsid()
 
 
-def run_stateless(binary, layer, lines, timeout=600, per_case_timeout=20):
+def _run_one(binary, layer, lines, timeout):
+    p = subprocess.Popen([binary, layer], stdin=subprocess.PIPE, stdout=subprocess.PIPE, stderr=subprocess.PIPE, preexec_fn=_limits)
+    try:
+        o, e = p.communicate(("\n".join(lines) + "\n").encode(), timeout=timeout)
+        return p.returncode, _lines(o), e.decode("utf8", "replace")
+    except subprocess.TimeoutExpired:
+        try:
+            os.killpg(p.pid, 9)
+        except OSError:
+            p.kill()
+        o, e = p.communicate()
+        return 124, _lines(o or b""), "timeout"
+
+
+def run_stateless(binary, layer, lines, timeout=60, per_case_timeout=10, max_failures=3, budget=150):
     """Run independent one-line cases (one output line each), sharded over the cores.
-    A case that kills the process (stack overflow, abort) or hangs is reported as
-    'CRASH rc=<n>' / 'HANG' and the remaining cases are still run."""
+    A case that kills the process (stack overflow, abort, memory limit) or hangs is reported as
+    'CRASH rc=<n>' / 'HANG' and the remaining cases are still run; after `max_failures` such
+    cases in one shard the rest of the shard is reported as 'SKIPPED'."""
     import concurrent.futures as cf
     n = max(1, min(NCPU, len(lines) // 50 + 1))
     chunks = [lines[i::n] for i in range(n)]
 
     def work(chunk):
         outs = []
-        pos = 0
-        while pos < len(chunk):
-            rest = chunk[pos:]
+        failures = 0
+        t0 = time.time()
+        while len(outs) < len(chunk):
+            if time.time() - t0 > budget:
+                outs.extend(["SKIPPED"] * (len(chunk) - len(outs)))
+                break
+            rest = chunk[len(outs):]
             rc, o, err = _run_one(binary, layer, rest, timeout)
             if rc == 0 and len(o) == len(rest):
                 outs.extend(o)
                 break
-            # the case after the last answered one is the culprit
-            outs.extend(o[:len(rest)])
-            k = len(o)
-            if k >= len(rest):
+            o = o[:len(rest)]
+            outs.extend(o)
+            if len(o) >= len(rest):
                 break
+            # the first unanswered case is the culprit (answers are flushed line by line)
             if rc == 124:
-                # find out whether this very case hangs
-                rc1, o1, _ = _run_one(binary, layer, [rest[k]], per_case_timeout)
+                rc1, o1, _ = _run_one(binary, layer, [rest[len(o)]], per_case_timeout)
                 if rc1 == 0 and len(o1) == 1:
-                    outs.append(o1[0])
-                else:
-                    outs.append("HANG" if rc1 == 124 else "CRASH rc=%s" % rc1)
+                    outs.append("SLOW " + o1[0])          # answered alone, but the shard ran out of time here
+                    failures += 1
+                    if failures >= max_failures:
+                        outs.extend(["SKIPPED"] * (len(chunk) - len(outs)))
+                        break
+                    continue
+                outs.append("HANG" if rc1 == 124 else "CRASH rc=%s" % rc1)
             else:
                 outs.append("CRASH rc=%s %s" % (rc, err.strip().splitlines()[-1][:120] if err.strip() else ""))
-            pos += k + 1
-            pos = len(outs)
+            failures += 1
+            if failures >= max_failures:
+                outs.extend(["SKIPPED"] * (len(chunk) - len(outs)))
+                break
         return outs
 
     with cf.ThreadPoolExecutor(max_workers=n) as ex:
